@@ -1,8 +1,11 @@
-(* What the names, attributes, calls and methods used by _crypto.py's wrappers and _client._decrypt_blob MEAN, in terms
-   of the model (Model/CryptoWrap.v, Model/Client.v): the world the regenerated syntax gen/F_e2e.v is run in.
-   Definitions only; the tie theorems are in Proofs/Flow_e2e.v. *)
-From V Require Import Prelude.Base Prelude.PyAst Prelude.PyWorld gen.C_asn1.
-From V Require Import Model.Types Model.Crypto Model.KeyId Model.Gkdi Model.Kek Model.Asn1 Model.Pkcs7 Model.Blob Model.CryptoWrap Model.Client.
+(* What the names, attributes, calls and methods used by _crypto.py's wrappers and _client._decrypt_blob / _encrypt_blob /
+   _get_protection_gke_from_cache MEAN, in terms of the model (Model/CryptoWrap.v, Model/Client.v): the world the
+   regenerated syntax gen/F_e2e.v is run in.  Definitions only; the tie theorems are in Proofs/Flow_e2e_<group>.v.
+
+   Two worlds: `W c` (everything deterministic) and `WR c rnd_cek rnd_iv rnd_kek time_ns`, which adds the callees that
+   draw randomness or read the clock; the draws / the clock value are the explicit arguments the model functions take. *)
+From V Require Import Prelude.Base Prelude.PyAst Prelude.PyWorld gen.C_asn1 gen.Consts.
+From V Require Import Model.Types Model.Crypto Model.Chain Model.KeyId Model.Gkdi Model.Kek Model.Asn1 Model.Pkcs7 Model.Blob Model.CryptoWrap Model.Client.
 Local Open Scope string_scope.
 Local Open Scope list_scope.
 Local Open Scope Z_scope.
@@ -13,11 +16,23 @@ Inductive obj :=
 | OEnv (e : envelope)             (* GroupKeyEnvelope *)
 | OKid (k : key_identifier)       (* KeyIdentifier *)
 | OReader (view : bytes)          (* ASN1Reader over the remaining octets *)
-| OGcm (key : bytes).             (* AESGCM(key) *)
+| OGcm (key : bytes)              (* AESGCM(key) *)
+| OWriter (t : option tag) (data : bytes)     (* ASN1Writer: _tag (a child writer has one) and _data *)
+| OSid (sid : pystr)              (* ProtectionDescriptor: SIDDescriptor(value) *)
+| OHash (h : hash)                (* hashes.SHA1() .. hashes.SHA512() *)
+| OCounterMode                    (* cryptography's Mode.CounterMode *)
+| OBeforeFixed                    (* cryptography's CounterLocation.BeforeFixed *)
+| OKbkdf (h : hash) (label context : bytes) (length : Z)   (* KBKDFHMAC(..) configured as _crypto.kdf does *)
+| OConcatKdf (h : hash) (otherinfo : bytes) (length : Z)   (* ConcatKDFHash(..) *)
+| OKdfParams (hash_name : pystr)  (* KDFParameters *)
+| OUuid (b : bytes)               (* uuid.UUID, as its bytes_le *)
+| OCache (cc : ccache).           (* KeyCache *)
 
 Definition vopt_bytes (o : option bytes) : pv obj := match o with Some b => VB b | None => VN end.
 Definition opt_of (v : pv obj) : option (option bytes) :=
   match v with VB b => Some (Some b) | VN => Some None | _ => None end.
+Definition vopt_env (o : option envelope) : pv obj := match o with Some e => VO (OEnv e) | None => VN end.
+Definition vopt_uuid (o : option bytes) : pv obj := match o with Some b => VO (OUuid b) | None => VN end.
 
 Section WithCrypto.
 Context (c : Crypto).
@@ -26,6 +41,9 @@ Definition e2e_ext : ext obj :=
   {| x_glob := fun x =>
        if String.eqb x "AlgorithmOID.AES256_WRAP" then Some (Ok (VO (OOid oid_aes256_wrap)))
        else if String.eqb x "AlgorithmOID.AES256_GCM" then Some (Ok (VO (OOid oid_aes256_gcm)))
+       else if String.eqb x "Mode.CounterMode" then Some (Ok (VO OCounterMode))
+       else if String.eqb x "CounterLocation.BeforeFixed" then Some (Ok (VO OBeforeFixed))
+       else if String.eqb x "_EPOCH_FILETIME" then Some (Ok (VI c_EPOCH_FILETIME))
        else None;
      x_attr := fun a v =>
        match v with
@@ -38,6 +56,29 @@ Definition e2e_ext : ext obj :=
          else if String.eqb a "enc_content_algorithm" then Some (Ok (VO (OOid (b_enc_content_algorithm b))))
          else if String.eqb a "enc_content_parameters" then Some (Ok (vopt_bytes (b_enc_content_parameters b)))
          else None
+       | VO (OEnv e) =>
+         if String.eqb a "version" then Some (Ok (VI (gke_version e)))
+         else if String.eqb a "flags" then Some (Ok (VI (gke_flags e)))
+         else if String.eqb a "l0" then Some (Ok (VI (gke_l0 e)))
+         else if String.eqb a "l1" then Some (Ok (VI (gke_l1 e)))
+         else if String.eqb a "l2" then Some (Ok (VI (gke_l2 e)))
+         else if String.eqb a "root_key_identifier" then Some (Ok (VO (OUuid (gke_rkid e))))
+         else if String.eqb a "kdf_algorithm" then Some (Ok (VS (gke_kdf_alg e)))
+         else if String.eqb a "kdf_parameters" then Some (Ok (VB (gke_kdf_params e)))
+         else if String.eqb a "secret_algorithm" then Some (Ok (VS (gke_secret_alg e)))
+         else if String.eqb a "secret_parameters" then Some (Ok (VB (gke_secret_params e)))
+         else if String.eqb a "private_key_length" then Some (Ok (VI (gke_priv_len e)))
+         else if String.eqb a "public_key_length" then Some (Ok (VI (gke_pub_len e)))
+         else if String.eqb a "domain_name" then Some (Ok (VS (gke_domain e)))
+         else if String.eqb a "forest_name" then Some (Ok (VS (gke_forest e)))
+         else if String.eqb a "l1_key" then Some (Ok (VB (gke_l1_key e)))
+         else if String.eqb a "l2_key" then Some (Ok (VB (gke_l2_key e)))
+         else None
+       | VO (OKdfParams n) =>
+         (* property KDFParameters.hash_algorithm: NotImplementedError for an unknown name *)
+         if String.eqb a "hash_algorithm" then Some (let* h := hash_algorithm n in Ok (VO (OHash h)))
+         else if String.eqb a "hash_name" then Some (Ok (VS n))
+         else None
        | _ => None
        end;
      x_setattr := fun _ _ _ => None;
@@ -48,6 +89,8 @@ Definition e2e_ext : ext obj :=
          match args with [VB k; VB x] => Some (let* w := kw_wrap c k x in Ok (VB w)) | _ => None end
        else if String.eqb f "ASN1Reader" then
          match args with [VB b] => Some (Ok (VO (OReader b))) | _ => None end
+       else if String.eqb f "ASN1Writer" then
+         match args with [] => Some (Ok (VO (OWriter None []))) | _ => None end
        else if String.eqb f "AESGCM" then
          match args with [VB k] => Some (Ok (VO (OGcm k))) | _ => None end
        else if String.eqb f "cek_decrypt" then
@@ -62,6 +105,63 @@ Definition e2e_ext : ext obj :=
            match opt_of p with Some p' => Some (let* x := content_decrypt c a p' cek v in Ok (VB x)) | None => None end
          | _ => None
          end
+       else if String.eqb f "cek_encrypt" then
+         match args with
+         | [VO (OOid a); p; VB kek; VB v] =>
+           match opt_of p with Some p' => Some (let* x := cek_encrypt c a p' kek v in Ok (VB x)) | None => None end
+         | _ => None
+         end
+       else if String.eqb f "content_encrypt" then
+         match args with
+         | [VO (OOid a); p; VB cek; VB v] =>
+           match opt_of p with Some p' => Some (let* x := content_encrypt c a p' cek v in Ok (VB x)) | None => None end
+         | _ => None
+         end
+       else if String.eqb f "DPAPINGBlob/key_identifier,protection_descriptor,enc_cek,enc_cek_algorithm,enc_cek_parameters,enc_content,enc_content_algorithm,enc_content_parameters" then
+         (* the dataclass constructor: stores its arguments *)
+         match args with
+         | [VO (OKid k); VO (OSid s); VB ek; VO (OOid ea); ep; VB ec; VO (OOid ca); cp] =>
+           match opt_of ep, opt_of cp with
+           | Some ep', Some cp' =>
+             Some (Ok (VO (OBlob {| b_key_identifier := k; b_sid := s; b_enc_cek := ek; b_enc_cek_algorithm := ea;
+                                    b_enc_cek_parameters := ep'; b_enc_content := ec; b_enc_content_algorithm := ca;
+                                    b_enc_content_parameters := cp' |})))
+           | _, _ => None
+           end
+         | _ => None
+         end
+       else if String.eqb f "KBKDFHMAC/algorithm,mode,length,label,context,rlen,llen,location,fixed" then
+         (* cryptography's SP800-108 KDF object.  The `kdf` field of the Crypto record is "counter mode, 32-bit counter before the
+            fixed input, 32-bit length, fixed input built from label and context": any other configuration is not what the
+            model's primitive stands for and gets no meaning here (TypeError) *)
+         match args with
+         | [VO (OHash h); VO OCounterMode; VI length; VB label; VB context; VI rlen; VI llen; VO OBeforeFixed; VN] =>
+           if (rlen =? 4) && (llen =? 4) then Some (Ok (VO (OKbkdf h label context length))) else None
+         | _ => None
+         end
+       else if String.eqb f "ConcatKDFHash/length,otherinfo" then
+         match args with
+         | [VO (OHash h); VI length; VB otherinfo] => Some (Ok (VO (OConcatKdf h otherinfo length)))
+         | _ => None
+         end
+       else if String.eqb f "KDFParameters.unpack" then
+         match args with [VB b] => Some (let* n := KDFParameters_unpack b in Ok (VO (OKdfParams n))) | _ => None end
+       else if String.eqb f "compute_l2_key" then
+         match args with
+         | [VO (OHash h); VI l1; VI l2; VO (OEnv rk)] => Some (let* k := compute_l2_key c h l1 l2 rk in Ok (VB k))
+         | _ => None
+         end
+       else if String.eqb f "GroupKeyEnvelope/version,flags,l0,l1,l2,root_key_identifier,kdf_algorithm,kdf_parameters,secret_algorithm,secret_parameters,private_key_length,public_key_length,domain_name,forest_name,l1_key,l2_key" then
+         (* the dataclass constructor: stores its arguments *)
+         match args with
+         | [VI version; VI flags; VI l0; VI l1; VI l2; VO (OUuid rid); VS ka; VB kp; VS sa; VB sp; VI priv; VI pub; VS dn; VS fn; VB k1; VB k2] =>
+           Some (Ok (VO (OEnv {| gke_version := version; gke_flags := flags; gke_l0 := l0; gke_l1 := l1; gke_l2 := l2;
+                                 gke_rkid := rid; gke_kdf_alg := ka; gke_kdf_params := kp;
+                                 gke_secret_alg := sa; gke_secret_params := sp;
+                                 gke_priv_len := priv; gke_pub_len := pub;
+                                 gke_domain := dn; gke_forest := fn; gke_l1_key := k1; gke_l2_key := k2 |})))
+         | _ => None
+         end
        else None;
      x_meth := fun m r args =>
        match r with
@@ -70,6 +170,21 @@ Definition e2e_ext : ext obj :=
            match args with [] => Some (let* (content, rest) := read_sequence view None None in Ok (VO (OReader content), VO (OReader rest))) | _ => None end
          else if String.eqb m "read_octet_string" then
            match args with [] => Some (let* (content, rest) := read_octet_string view None None in Ok (VB content, VO (OReader rest))) | _ => None end
+         else None
+       | VO (OWriter t data) =>
+         (* self._data.extend(_pack_asn1_X(value)); push_sequence() returns a child writer with the SEQUENCE tag whose
+            __exit__ (x_exit below) appends its TLV to the parent *)
+         if String.eqb m "push_sequence" then
+           match args with [] => Some (Ok (VO (OWriter (Some seq_tag) []), r)) | _ => None end
+         else if String.eqb m "write_octet_string" then
+           match args with [VB b] => Some (let* x := pack_octet_string b None in Ok (VN, VO (OWriter t (data ++ x)))) | _ => None end
+         else if String.eqb m "write_integer" then
+           match args with [VI v] => Some (let* x := pack_integer v None in Ok (VN, VO (OWriter t (data ++ x)))) | _ => None end
+         else if String.eqb m "get_data" then
+           match args with
+           | [] => Some (match t with None => Ok (VB data, r) | Some _ => Raise TypeError end)
+           | _ => None
+           end
          else None
        | VO (OGcm k) =>
          if String.eqb m "decrypt" then
@@ -81,15 +196,84 @@ Definition e2e_ext : ext obj :=
          if String.eqb m "get_kek" then
            match args with [VO (OKid k)] => Some (let* kek := get_kek c e k in Ok (VB kek, r)) | _ => None end
          else None
+       | VO (OBlob b) =>
+         if String.eqb m "pack" then     (* blob_in_envelope defaults to True *)
+           match args with [] => Some (let* x := blob_pack b true in Ok (VB x, r)) | _ => None end
+         else None
+       | VO (OKbkdf h label context length) =>
+         if String.eqb m "derive" then
+           match args with [VB secret] => Some (Ok (VB (kdf c h secret label context length), r)) | _ => None end
+         else None
+       | VO (OConcatKdf h otherinfo length) =>
+         if String.eqb m "derive" then
+           match args with [VB secret] => Some (Ok (VB (concat_kdf c h secret otherinfo length), r)) | _ => None end
+         else None
+       | VO (OCache cc) =>
+         if String.eqb m "_get_key" then
+           match args with
+           | [VB sd; VO (OUuid rid); VI l0; VI l1; VI l2] =>
+             Some (let* (rko, cc') := cc_get_key c cc sd rid l0 l1 l2 in Ok (vopt_env rko, VO (OCache cc')))
+           | _ => None
+           end
+         else None
        | _ => None
        end;
      x_truthy := fun _ => Ok true;
      x_eqb := fun a b => match a, b with OOid x, OOid y => Some (oid_eqb x y) | _, _ => None end;
      x_iter := fun _ => Raise TypeError;
      x_enter := fun v => Ok v;
-     x_exit := fun _ o => Ok o;
+     (* ASN1Writer.__exit__: a child writer (it has a tag and a parent) appends _pack_asn1(tag, its data) to the parent's data *)
+     x_exit := fun y o =>
+       match y, o with
+       | VO (OWriter (Some t) data), Some (VO (OWriter pt pdata)) =>
+         let* d := pack_tlv t data in Ok (Some (VO (OWriter pt (pdata ++ d))))
+       | _, _ => Ok o
+       end;
      x_exc := fun _ => None |}.
 
 Definition W : world (pv obj) := std_world e2e_ext.
 
+(* the callees that draw randomness or read the clock: what they return is an explicit argument of the model functions
+   (Model/CryptoWrap.v cek_generate, Model/Kek.v new_kek_rnd, Model/Client.v protection_gke_from_cache) *)
+Section WithOracles.
+Context (rnd_cek rnd_iv rnd_kek : bytes) (time_ns : Z).
+
+Definition e2e_ext_rnd : ext obj :=
+  {| x_glob := x_glob e2e_ext;
+     x_attr := x_attr e2e_ext;
+     x_setattr := x_setattr e2e_ext;
+     x_call := fun f args =>
+       if String.eqb f "AESGCM.generate_key" then      (* 256-bit key: the first draw *)
+         match args with [VI n] => if n =? 256 then Some (Ok (VB rnd_cek)) else None | _ => None end
+       else if String.eqb f "os.urandom" then          (* 12 bytes: the second draw *)
+         match args with [VI n] => if n =? 12 then Some (Ok (VB rnd_iv)) else None | _ => None end
+       else if String.eqb f "cek_generate" then
+         match args with
+         | [VO (OOid a)] => Some (let* (k, iv) := cek_generate a rnd_cek rnd_iv in Ok (VT [VB k; VB iv]))
+         | _ => None
+         end
+       else if String.eqb f "time.time_ns" then
+         match args with [] => Some (Ok (VI time_ns)) | _ => None end
+       else x_call e2e_ext f args;
+     x_meth := fun m r args =>
+       match r with
+       | VO (OEnv e) =>
+         if String.eqb m "new_kek" then                (* its os.urandom call is the third draw *)
+           match args with
+           | [] => Some (let* (kek, kid) := new_kek_rnd c e rnd_kek in Ok (VT [VB kek; VO (OKid kid)], r))
+           | _ => None
+           end
+         else x_meth e2e_ext m r args
+       | _ => x_meth e2e_ext m r args
+       end;
+     x_truthy := x_truthy e2e_ext;
+     x_eqb := x_eqb e2e_ext;
+     x_iter := x_iter e2e_ext;
+     x_enter := x_enter e2e_ext;
+     x_exit := x_exit e2e_ext;
+     x_exc := x_exc e2e_ext |}.
+
+Definition WR : world (pv obj) := std_world e2e_ext_rnd.
+
+End WithOracles.
 End WithCrypto.
